@@ -542,7 +542,8 @@ func reduceRowsApplicable(s *Spec, a *Agg) bool {
 	if len(rd.Groups) == 0 && !rd.Table {
 		return false
 	}
-	if len(rd.Groups)+len(rd.Accs) > 10 || len(a.reduce) > s.N || len(a.reduce) == 0 {
+	// the header line is one of the --num rows of the table
+	if len(rd.Groups)+len(rd.Accs) > 10 || len(a.reduce)+1 > s.N || len(a.reduce) == 0 {
 		return false
 	}
 	for _, g := range rd.Groups {
@@ -732,8 +733,12 @@ func judgeSparkRows(s *Spec, a *Agg, body string) *finding {
 // judgeTableGrid: same idea for `table`: plain keys, everything fits (--num / --cols),
 // then header + rows (+ totals) must hold exactly the reference cells.
 func tableGridApplicable(s *Spec, a *Agg) bool {
-	return s.Cmd == "table" && len(a.cols) > 0 && allPlain(sortedKeys(a.cols)) && allPlain(sortedKeys(a.rows)) && len(a.rows) <= s.N && len(a.cols) <= s.Cols
+	return s.Cmd == "table" && len(a.cols) > 0 && allPlain(sortedKeys(a.cols)) && allPlain(sortedKeys(a.rows)) && s.N >= 1 && s.Cols >= 1
 }
+
+// tableFits: every row and column is on the screen (otherwise the first --num rows / --cols columns of the sort order
+// are; the table prints no note about the rest, the summary line counts them).
+func tableFits(s *Spec, a *Agg) bool { return len(a.rows) <= s.N && len(a.cols) <= s.Cols }
 
 func judgeTableGrid(s *Spec, a *Agg, body string) *finding {
 	if !tableGridApplicable(s, a) {
@@ -759,12 +764,12 @@ func judgeTableGrid(s *Spec, a *Agg, body string) *finding {
 		return bad("table screen has no header")
 	}
 	hdr := strings.Fields(lines[0])
-	wantHdr := len(a.cols)
+	wantHdr := min(len(a.cols), s.Cols)
 	if rowTot {
 		wantHdr++
 	}
 	if len(hdr) != wantHdr {
-		return bad("table header has %d names, reference has %d columns (row totals: %v)", len(hdr), len(a.cols), rowTot)
+		return bad("table header has %d names, reference has %d columns of which --cols %d are shown (row totals: %v)", len(hdr), len(a.cols), s.Cols, rowTot)
 	}
 	cols := hdr
 	if rowTot {
@@ -783,11 +788,13 @@ func judgeTableGrid(s *Spec, a *Agg, body string) *finding {
 	}
 	seen := map[string]bool{}
 	var all int64
-	colSum := map[string]int64{}
+	colSum, rowSum := map[string]int64{}, map[string]int64{}
 	for k, v := range a.cells {
 		colSum[k[0]] += v
+		rowSum[k[1]] += v
 		all += v
 	}
+	dataRows := 0
 	for _, ln := range lines[1:] {
 		f := strings.Fields(ln)
 		if len(f) == 0 {
@@ -805,18 +812,23 @@ func judgeTableGrid(s *Spec, a *Agg, body string) *finding {
 		if !isTot && !a.rows[name] {
 			return bad("screen has row %s that no input line produced", run.Q(name))
 		}
-		var rsum int64
+		if !isTot {
+			dataRows++
+		}
+		rsum := rowSum[name] // over all columns, shown or not
 		for i, c := range cols {
 			w := a.cells[[2]string{c, name}]
 			if isTot {
 				w = colSum[c]
 			}
-			rsum += w
+			if isTot && len(a.rows) > s.N {
+				continue // whether a column total covers rows that are not shown is not documented: not judged
+			}
 			if strings.ReplaceAll(f[i+1], ",", "") != strconv.FormatInt(w, 10) {
 				return bad("screen cell (col %s, row %s) = %s, reference %d", run.Q(c), run.Q(name), f[i+1], w)
 			}
 		}
-		if rowTot {
+		if rowTot && tableFits(s, a) { // with hidden rows or columns what a total covers is not documented: not judged
 			w := rsum
 			if isTot {
 				w = all
@@ -826,9 +838,14 @@ func judgeTableGrid(s *Spec, a *Agg, body string) *finding {
 			}
 		}
 	}
-	for _, r := range sortedKeys(a.rows) {
-		if !seen[r] {
-			return bad("row %s is missing from the screen", run.Q(r))
+	if want := min(len(a.rows), s.N); dataRows != want {
+		return bad("the table shows %d rows; the data has %d rows and --num is %d", dataRows, len(a.rows), s.N)
+	}
+	if tableFits(s, a) {
+		for _, r := range sortedKeys(a.rows) {
+			if !seen[r] {
+				return bad("row %s is missing from the screen", run.Q(r))
+			}
 		}
 	}
 	if colTot && !seen["Total"] {
